@@ -177,6 +177,40 @@ theorem c15_input_record (ops : List Op) (pre : Option InputArg) (tr : List Even
   rw [e]
   cases pre <;> exact hs.2.2 _ rfl
 
+/-- `run(inputs=a, before=B, code)` — which the harness sends as `[.exec (some a) B, .exec none tr]`, the
+order `Sandbox.run` documents (the inputs are queued, then the `before` code is an execution of its own,
+then the code) — after ANY callable-free history: the `before` code reads the first `nReads B` of the
+GIVEN inputs (not what was queued earlier: the earlier queue is replaced), the code goes on where the
+`before` code stopped, and what is left in the queue is what neither of them read. -/
+theorem c15_run_with_before (ops : List Op) (a : InputArg) (B tr : List Event)
+    (h : ∀ op ∈ ops, op.noCallable = true) (ha : argNoCallable a = true) :
+    let s1 := run init (ops ++ [.exec (some a) B])
+    let s2 := run init (ops ++ [.exec (some a) B, .exec none tr])
+    (s1.contexts.getLast?).map Ctx.inputs =
+        some ((argItems a).take (nReads B) ++ List.replicate (nReads B - (argItems a).length) defaultStr) ∧
+    (s2.contexts.getLast?).map Ctx.inputs =
+        some (((argItems a).drop (nReads B)).take (nReads tr) ++
+          List.replicate (nReads tr - ((argItems a).drop (nReads B)).length) defaultStr) ∧
+    s2.inputs = .queue ((argItems a).drop (nReads B + nReads tr)) := by
+  intro s1 s2
+  have hq := c15_input_fifo_once_default ops h
+  have e1 : s1 = step (run init ops) (.exec (some a) B) := by
+    simp [s1, run, List.foldl_append]
+  have e2 : s2 = step s1 (.exec none tr) := by
+    simp [s1, s2, run, List.foldl_append]
+  have h1 := step_queue (run init ops) _ (.exec (some a) B) hq ha
+  rw [← e1] at h1
+  have h2 := step_queue s1 _ (.exec none tr) h1.2.1 rfl
+  rw [← e2] at h2
+  refine ⟨h1.2.2 _ rfl, h2.2.2 _ rfl, ?_⟩
+  rw [h2.2.1]
+  simp [specQueue, List.drop_drop]
+
+/-- non-vacuity: three inputs, the `before` code reads one, the code reads one, one is left -/
+example :
+    (run init [.queueInput ["s".toList], .exec (some (.many ["X".toList, "Y".toList, "Z".toList])) [.read []],
+      .exec none [.read []]]).inputs = .queue ["Z".toList] := by rfl
+
 /-- with a callable installed, `input()` returns what the callable returns for the prompt and
 the prompt is not echoed -/
 theorem c15_callable_reads (f : Callable) (tr : List Event) :
